@@ -1,6 +1,6 @@
 (** Comparators for C20 cases (no proofs): model vs implementation ([*_mismatch]) and the
     property acceptors of Decor/Monitor.v on what the implementation did ([*_violates]). *)
-From WM Require Import Base.Prelude Message.Model Handler.RouterHandle Decor.Model Decor.Monitor.
+From WM Require Import Base.Prelude Message.Model Handler.RouterHandle Decor.Model Decor.Heap Decor.Monitor.
 
 (** * publisher stacks *)
 Record pub_case := PubCase {
@@ -11,26 +11,33 @@ Record pub_case := PubCase {
   pk_close : nat * option N * option N  (* Close: calls seen by the wrapped publisher, its answer, what Close returned *)
 }.
 
+(** the in-place model (Decor/Heap.v): also right when a batch holds the same object twice *)
 Fixpoint pcmp (stk : list pdec) (s : pstate) (calls : list pcall) (obs : list pobs) : bool :=
   match calls, obs with
   | [], [] => true
   | c :: cs, o :: os =>
-      let b := read (ps_heap s) (pc_batch c) in
-      let r := publish stk (ps_script s) (pc_topic c) (map snd b) in
+      let r := publish_h stk (ps_script s) (pc_topic c) (pc_batch c) (ps_heap s) in
       N.eqb (pc_topic c) (c_topic o)
-      && list_eqb pmsg_eqb (map snd b) (c_before o)
-      && list_eqb pevent_eqb (po_ev r) (c_ev o)
-      && optN_eqb (po_res r) (c_res o)
-      && list_eqb pmsg_eqb (po_msgs r) (c_after o)
+      && list_eqb pmsg_eqb (hreads (ps_heap s) (pc_batch c)) (c_before o)
+      && list_eqb pevent_eqb (ho_ev r) (c_ev o)
+      && optN_eqb (ho_res r) (c_res o)
+      && list_eqb pmsg_eqb (hreads (ho_heap r) (pc_batch c)) (c_after o)
       && optN_eqb (hd None (ps_script s)) (c_answer o)
-      && pcmp stk (pstep stk s c) cs os
+      && pcmp stk (pstep_h stk s c) cs os
   | _, _ => false
   end.
+
+(** by-value model = in-place model on the case (a theorem when no batch repeats an object) *)
+Definition pstate_eqb (a b : pstate) : bool :=
+  list_eqb pmsg_eqb (ps_heap a) (ps_heap b) && list_eqb optN_eqb (ps_script a) (ps_script b)
+  && list_eqb pevent_eqb (ps_ev a) (ps_ev b) && list_eqb plabel_eqb (ps_obs a) (ps_obs b)
+  && list_eqb optN_eqb (ps_res a) (ps_res b).
+Definition nodup_nat (l : list nat) : bool := nodupb (map N.of_nat l).
 
 Definition close_eqb (a b : nat * option N) : bool := Nat.eqb (fst a) (fst b) && optN_eqb (snd a) (snd b).
 
 Definition pub_mismatch (c : pub_case) : bool :=
-  let s := prun (pk_st c) (pk_heap c) (pk_script c) (pk_calls c) in
+  let s := prun_h (pk_st c) (pk_heap c) (pk_script c) (pk_calls c) in
   negb (pcmp (pk_st c) (PS (pk_heap c) (pk_script c) [] [] []) (pk_calls c) (pk_obs c)
         && list_eqb pmsg_eqb (ps_heap s) (pk_final c)
         && counts_agree plabel_eqb (pk_tab c) (ps_obs s)
@@ -40,7 +47,7 @@ Definition pub_mismatch (c : pub_case) : bool :=
     may carry the publish mark (whatever else they have been through) *)
 Definition pub_violates (c : pub_case) : bool :=
   negb (forallb (fun m => negb (pm_mark m)) (pk_heap c)
-        && pub_monitor (pk_st c) (pk_obs c) (pk_tab c)
+        && pub_monitor_any (pk_st c) (pk_obs c) (pk_tab c)
         && close_eqb (1%nat, snd (fst (pk_close c))) (fst (fst (pk_close c)), snd (pk_close c))).
 
 (** * subscriber stacks *)
